@@ -11,10 +11,17 @@ func init() {
 				{Name: "notation-pairs", Pkg: "ti/builtin", Entry: "VerifNotation", N: 2, Budget: 400000, Reach: []string{"compared-pairs"},
 					Asserts: []string{"C21-union-return", "C21-union-argument"}, Replay: "kernel", Cross: true,
 					Bound: "\"A|B\" vs [\"A\",\"B\"] for every ordered pair of atoms, as return type and as argument type"},
+				func() *Job {
+					j := f4Job("notation-sites", "VerifNotationSites", 0, []string{"ran"}, []string{"C21-sites"},
+						"two generated classes with the same declarations, one written in compact notation (?T, [T], A|B, *T) and one with the named forms / is_default / is_asterisk flags, in every place of a configuration file that holds a type (positional and keyword arguments, return types, block parameters, constants, instance properties), loaded by the real loader; one program (block parameters, returns, ill-typed calls, constant, property) run against each class; outputs equal apart from the class name")
+					return j
+				}(),
 			}
 		},
-		Functions: []string{"ti/builtin.parseTypeString", "ti/builtin.parseArguments", "ti/builtin.parseReturnType", "ti/builtin.ConvertToBuiltinT"},
+		Custom:    replayNotationSites,
+		Stubs:     f4Stubs,
+		Functions: []string{"ti/builtin.loadBuiltinFromJSON", "ti/builtin.appendBlockParameters", "ti/builtin.parseTypeString", "ti/builtin.parseArguments", "ti/builtin.parseReturnType", "ti/builtin.ConvertToBuiltinT"},
 		Assumptions: []string{"equality of the two notations is judged on the loader's output (every field of base.T the loader can set, recursively); equal T values make every later diagnostic, inferred type and rendered signature equal"},
-		Outside:   "unions of more than 2 atoms, nested notations (?[T], [A|B]), is_conditional / block_parameters",
+		Outside:   "unions of more than 2 atoms, nested notations (?[T], [A|B]), is_conditional",
 	})
 }
